@@ -40,6 +40,13 @@ def aged_connections(c, prop="C15"):
                      {"op": "close", "conn": "slowin"}])
     meta["slowin_up"] = {"name": "within-exempt-slow-intake", "len": big, "framing": "cl", "seed": 777, "host": "other", "conn": "slowin",
                          "limit": 100 << 20}
+    # how the client cuts its body is not the body's size: exactly the limit in 4-byte chunks (25600 of them)
+    branches.append([{"op": "connect", "conn": "tiny", "attr": {"uid": 0, "admin": 1, "dip": "169.254.169.254", "dport": 80}, "timeout_ms": 120000},
+                     {"op": "request", "conn": "tiny", "id": "tiny_up", "method": "POST", "target": "/machine/?comp=exact4", "headers": [["Host", "h"]],
+                      "body": {"seed": 640, "len": LIMIT}, "framing": "chunked", "chunks": [4] * (LIMIT // 4),
+                      "resp": {"status": 200, "headers": [["X-Host", "tiny_up"]], "body": {"seed": 1, "len": 5}}},
+                     {"op": "close", "conn": "tiny"}])
+    meta["tiny_up"] = {"name": "exact-in-4-byte-chunks", "len": LIMIT, "framing": "chunked", "seed": 640, "host": "imds", "conn": "tiny"}
     # second-order state: five exempt uploads that are refused (chunked, one byte over 100 MiB; any case of the URL), then
     # exempt uploads within the limit -- what was refused before has no bearing on them
     exs = [{"op": "connect", "conn": "exq", "attr": {"uid": 0, "admin": 1, "dip": "168.63.129.16", "dport": 32526}, "timeout_ms": 120000}]
